@@ -1,7 +1,8 @@
 (* C11 correspondence: the real Dial + dial() (through the identifier seam) + setAutoconf + done
    closure against a recording State and fake connections.  case = script + observed call log +
    final sysctl value. *)
-From CR Require Export Model.Dialer Model.DialerSpec.
+From CR Require Export Model.Dialer.
+From CR Require Export Model.DialerSpec.
 From CR Require Import Corr.C10dial.
 Local Open Scope Z_scope.
 
